@@ -36,7 +36,7 @@ Proof.
   destruct (nth (N.to_nat (vi_id inst)) (vt_inst T) (0, 0, 0, 0)) as [[[iflags avx] sidx] scnt].
   unfold lock_stage, rep_stage, mode_stage, evex_stage, avx_stage, extra_stage. cbn [with_options vi_id vi_options vi_extra_type vi_extra_id].
   rewrite !test_clear_bit0 by reflexivity. rewrite !land_clear_bit0 by reflexivity.
-  destruct (xlat_all T x64 virt avx ops init_xstate) as [e|[st rest]]; [reflexivity|].
+  destruct (xlat_all T x64 virt iflags avx ops init_xstate) as [e|[st rest]]; [reflexivity|].
   rewrite ?test_clear_bit0, ?land_clear_bit0 by reflexivity. reflexivity.
 Qed.
 
@@ -44,13 +44,13 @@ Qed.
 Fixpoint from_first_none (ops : list ValidateModel.operand) : list ValidateModel.operand :=
   match ops with [] => [] | ONone :: _ => ops | _ :: r => from_first_none r end.
 
-Lemma xlat_all_rest : forall T x64 virt avx ops st st' rest,
-  xlat_all T x64 virt avx ops st = inr (st', rest) -> rest = from_first_none ops.
+Lemma xlat_all_rest : forall T x64 virt iflags avx ops st st' rest,
+  xlat_all T x64 virt iflags avx ops st = inr (st', rest) -> rest = from_first_none ops.
 Proof.
   induction ops as [|op ops IH]; intros st st' rest H; cbn [xlat_all] in H.
   - injection H as _ <-. reflexivity.
   - destruct op; try (injection H as _ <-; reflexivity);
-      (destruct (xlat_operand T x64 virt avx _) as [e|x comb]; [discriminate|]; cbn [from_first_none]; eapply IH; exact H).
+      (destruct (xlat_operand T x64 virt iflags avx _) as [e|x comb]; [discriminate|]; cbn [from_first_none]; eapply IH; exact H).
 Qed.
 
 Theorem accepted_has_no_gap : forall T zq x64 virt inst ops,
